@@ -66,10 +66,20 @@ def gen(rng, n):
             if lay.top[v][0] == 'sticky':
                 dirs.append((lay.top1(v), 'top1'))
         user = None
+        linked = None
         if rng.random() < 0.2:
             user = rng.choice([lay.home + '/mytrash', (lay.vols[0] + '/sub/mytrash') if lay.vols else '/mytrash'])
             dirs = [(user, 'user')]
+            if lay.vols and rng.random() < 0.4:
+                # the user's trash directory is named through a symbolic link that lives on another volume than the directory: every
+                # command attaches the volume of the NAME it was given (nobody resolves it)
+                real = lay.vols[0] + '/.realtd'
+                user = lay.home + '/tdlink'
+                linked = real
+                dirs = [(user, 'user')]
         nodes, ents = [], []
+        if linked:
+            nodes += [['d', linked, 0o700], ['l', user, linked]]
         for k in range(rng.randint(1, 4)):
             td, kind = rng.choice(dirs)
             rel = (kind != 'home') if rng.random() < 0.8 else (kind == 'home')
